@@ -25,15 +25,36 @@ def ref(stack) -> bool:
 
 
 
-NAMES = ["Template:a", "Template:b", "ARGVAL-1", "TEMPLATE_NAME"]
+NAMES = ["Template:a", "Template:b", "ARGVAL-1", "TEMPLATE_NAME", "ARGVAL-x"]  # argument frames are named after the key: a number or a name
+
+
+def _pick(x, n: int) -> int:
+    for v in range(n):
+        if x == v:
+            return v
+    raise AssertionError("outside the precondition")
+
+
+def _cmp(cs) -> bool:
+    """the solver chooses the stack (case split by comparisons); the detector and the reference then run untraced on the
+    concrete stack (nothing symbolic is left, tracing would only cost time)"""
+    from crosshair.tracers import NoTracing, is_tracing
+
+    if is_tracing():
+        cs = [_pick(c, len(NAMES)) for c in cs]
+        with NoTracing():
+            st = [NAMES[c] for c in cs]
+            return detect_expand_template_loop(list(st)) == ref(st)
+    st = [NAMES[c] for c in cs]
+    return detect_expand_template_loop(list(st)) == ref(st)
+
 
 def loop_2(c0: int, c1: int) -> bool:
     """
-    pre: 2 <= N and 0 <= c0 < 4 and 0 <= c1 < 4
+    pre: 2 <= N and 0 <= c0 < 5 and 0 <= c1 < 5
     post: _
     """
-    st = [NAMES[c0], NAMES[c1]]
-    return detect_expand_template_loop(st) == ref(st)
+    return _cmp([c0, c1])
 
 
 def replay_loop_2(c0, c1):
@@ -44,11 +65,10 @@ def replay_loop_2(c0, c1):
 
 def loop_3(c0: int, c1: int, c2: int) -> bool:
     """
-    pre: 3 <= N and 0 <= c0 < 4 and 0 <= c1 < 4 and 0 <= c2 < 4
+    pre: 3 <= N and 0 <= c0 < 5 and 0 <= c1 < 5 and 0 <= c2 < 5
     post: _
     """
-    st = [NAMES[c0], NAMES[c1], NAMES[c2]]
-    return detect_expand_template_loop(st) == ref(st)
+    return _cmp([c0, c1, c2])
 
 
 def replay_loop_3(c0, c1, c2):
@@ -59,11 +79,10 @@ def replay_loop_3(c0, c1, c2):
 
 def loop_4(c0: int, c1: int, c2: int, c3: int) -> bool:
     """
-    pre: 4 <= N and 0 <= c0 < 4 and 0 <= c1 < 4 and 0 <= c2 < 4 and 0 <= c3 < 4
+    pre: 4 <= N and 0 <= c0 < 5 and 0 <= c1 < 5 and 0 <= c2 < 5 and 0 <= c3 < 5
     post: _
     """
-    st = [NAMES[c0], NAMES[c1], NAMES[c2], NAMES[c3]]
-    return detect_expand_template_loop(st) == ref(st)
+    return _cmp([c0, c1, c2, c3])
 
 
 def replay_loop_4(c0, c1, c2, c3):
@@ -74,11 +93,10 @@ def replay_loop_4(c0, c1, c2, c3):
 
 def loop_5(c0: int, c1: int, c2: int, c3: int, c4: int) -> bool:
     """
-    pre: 5 <= N and 0 <= c0 < 4 and 0 <= c1 < 4 and 0 <= c2 < 4 and 0 <= c3 < 4 and 0 <= c4 < 4
+    pre: 5 <= N and 0 <= c0 < 5 and 0 <= c1 < 5 and 0 <= c2 < 5 and 0 <= c3 < 5 and 0 <= c4 < 5
     post: _
     """
-    st = [NAMES[c0], NAMES[c1], NAMES[c2], NAMES[c3], NAMES[c4]]
-    return detect_expand_template_loop(st) == ref(st)
+    return _cmp([c0, c1, c2, c3, c4])
 
 
 def replay_loop_5(c0, c1, c2, c3, c4):
@@ -89,11 +107,10 @@ def replay_loop_5(c0, c1, c2, c3, c4):
 
 def loop_6(c0: int, c1: int, c2: int, c3: int, c4: int, c5: int) -> bool:
     """
-    pre: 6 <= N and 0 <= c0 < 4 and 0 <= c1 < 4 and 0 <= c2 < 4 and 0 <= c3 < 4 and 0 <= c4 < 4 and 0 <= c5 < 4
+    pre: 6 <= N and 0 <= c0 < 5 and 0 <= c1 < 5 and 0 <= c2 < 5 and 0 <= c3 < 5 and 0 <= c4 < 5 and 0 <= c5 < 5
     post: _
     """
-    st = [NAMES[c0], NAMES[c1], NAMES[c2], NAMES[c3], NAMES[c4], NAMES[c5]]
-    return detect_expand_template_loop(st) == ref(st)
+    return _cmp([c0, c1, c2, c3, c4, c5])
 
 
 def replay_loop_6(c0, c1, c2, c3, c4, c5):
